@@ -19,6 +19,19 @@ CHECKS = {
  "C17": ("E-CRASH(tail)", TAIL, "For every recorded crash image whose cut touches the log, every truncation, every garbage tail of a fixed set and every bit flip behind the last complete transaction is opened with the real code; recovery must equal the clean cut and later commits must survive two reopens.", "tail set is finite and listed in the evidence; tails with a valid checksum over an undecodable body are excluded", "3/C17"),
 }
 
+
+SCHED = "stateless model checking: exhaustive preemption-bounded schedule enumeration of real threads under a cooperative scheduler"
+COMP = "exhaustive enumeration of inputs / operation sequences on the real component"
+CHECKS.update({
+ "C03": ("E-SCHED", SCHED, "A writer thread (commits, compaction, index creation) and a reader thread that takes a snapshot at an arbitrary scheduling point run on the real engine; every schedule with at most the stated number of preemptions is executed (points: every lock acquisition and publication step); the snapshot's dump must equal a sequential state between 'operations completed before' and 'operations started before' and must not change in two later dumps.", "sequentially consistent atomics; each dump of an existing snapshot is one scheduling block; page-level MVCC defects are recorded as known findings", "3/C03"),
+ "C09": ("E-SCHED", SCHED, "2-3 threads issue read-modify-write statements through ndb_execute_write on one shared node; every schedule with at most the stated number of preemptions is executed; the final state must be the result of some serial order of the successful statements.", "sequentially consistent atomics; scheduling points = instrumented lock acquisitions / publication steps", "3/C09"),
+ "C10": ("E-SEQ(handles)", SEQ, "All sequences up to the bound over open/commit/compact/close/drop on two handles, both in-process and with the second handle in a separate process (incl. kill -9); a second open must be refused while a handle is open, must succeed when none is, and exactly the accepted commits must be present at the end.", "cross-process configuration runs on one thread (fork/lock inheritance artefact otherwise)", "3/C10"),
+ "C25": ("E-COMP", COMP, "Every value tree of depth <= 2 over 18 leaves and every WAL record variant over small field alphabets round-trips bit-exactly; every byte string up to the bound over a 14-symbol alphabet, every truncation / byte substitution of real encodings and nesting / count families are decoded in resource-limited child processes and must yield a value or an error.", "512 MiB address-space limit stands in for 'allocates without bound'", "3/C25"),
+ "C27": ("E-COMP", COMP, "All pairs of boundary integers, a 65 536-value float sweep (adjacent pairs + all pairs of a subset), all strings / blobs up to the bound over adversarial byte alphabets, booleans: order, equality and prefix-freedom of the encoded keys.", "floats: exhaustive over sign/exponent/top-4 mantissa bits, not all 2^64", "3/C27"),
+ "C29": ("E-SCHED+E-SEQ", SCHED + "; quiescent part: explicit-state search over histories", "Quiescent: every history up to the bound, backup, restore, open, dump equal. Concurrent: a backup thread against a writer thread, every schedule with at most the stated number of preemptions; the restored database must open and equal a sequential state within the backup's window.", "a file copy is one atomic step; the non-atomic two-file copy is a recorded known finding", "3/C29"),
+ "C35": ("E-SCHED", SCHED, "Every pair (thorough: also triples) of the public operations runs on separate threads of one engine under every schedule with at most the stated number of preemptions; threads are disabled while the lock they want is held; no schedule may reach 'unfinished threads, none enabled', and the accumulated lock-order graph must be acyclic.", "operations are fixed finite bodies; livelock horizon 20 000 points", "3/C35"),
+})
+
 NOT_YET = "check under construction in this session (not yet registered)"
 
 def main():
@@ -46,6 +59,8 @@ def main():
                "source_commits": hook_commits, "add_only": True},
      "engines": [
         {"name":"E-SEQ","path":"harness/src/seq.rs","serves_properties":[p for p,v in CHECKS.items() if v[0].startswith("E-SEQ")],"kind_free_text":"explicit-state breadth-first search over operation sequences, real engine as transition function, GraphModel / differential oracles"},
+        {"name":"E-SCHED","path":"harness/src/sched.rs","serves_properties":[p for p,v in CHECKS.items() if "E-SCHED" in v[0]],"kind_free_text":"cooperative scheduler over thread-local hooks (lock probes, publication points), deviation-bounded DFS by re-execution"},
+        {"name":"E-COMP","path":"harness/src/comp.rs","serves_properties":[p for p,v in CHECKS.items() if v[0].startswith("E-COMP")],"kind_free_text":"exhaustive component-level exploration (codecs, ordered keys, B-tree, HNSW), child-process isolation for decoders"},
         {"name":"E-CRASH","path":"harness/src/crash.rs","serves_properties":[p for p,v in CHECKS.items() if v[0].startswith("E-CRASH")],"kind_free_text":"recorded I/O log -> every crash point, power-loss subsets, single I/O faults, log tails; real recovery on every image"},
      ],
      "checks": checks,
